@@ -55,7 +55,7 @@ def generate(rng, index, cfg):
         return {"scenario": sc, "fault_budget": cfg.get("e2e_fault_budget", 6), "explicit_faults": None}
     entry = rng.choice(["nbmerge", "nbmerge", "driver"])
     base, local, remote = nbgen.triple(rng, max_cells=rng.choice([1, 2, 3]), overlap=rng.choice([0.3, 0.7, 1.0]),
-                                       minor=rng.choice([4, 5]), kinds=rng.choice([None, ["src"] * 5 + ["out", "md", "ins"], ["src"]]))
+                                       minor=rng.choice([4, 5]), kinds=rng.choice([None, ["src"] * 5 + ["out", "md", "ins"], ["src"], ["samelen"], ["samelen", "src"]]))
     triple = {"base": base, "local": local, "remote": remote}
     shape = rng.choice(["plain"] * 7 + ["base_null", "base_empty", "local_null", "remote_null", "both_null", "missing", "local_empty",
                                         "remote_empty", "base_garbage", "remote_garbage", "local_bad_utf8", "remote_dir", "base_v3"])
@@ -176,6 +176,10 @@ def one_pass(sc, plan, line_total=None, count_lines=False, scratch=None):
                 json.dump(v, f, indent=1)
                 f.write("\n")
         paths[name] = p
+    # git hands a merge driver three temporaries written in the same instant: give the inputs one modification time
+    for q in paths.values():
+        if q != "/dev/null" and os.path.isfile(q):
+            os.utime(q, ns=(1700000000 * 10**9, 1700000000 * 10**9))
     out_mode = sc["out"]
     out_path = None
     if out_mode == "inplace":
@@ -202,18 +206,21 @@ def one_pass(sc, plan, line_total=None, count_lines=False, scratch=None):
     def independent_inputs():
         """What the three inputs are, read by the harness itself: the null file and an empty *base* stand for an
         empty notebook (the placeholders the property allows); anything else must be the notebook stored in the file."""
-        out = []
+        out, objs = [], []
         for name in ("base", "local", "remote"):
             v = sc["triple"][name]
             if v == "NULL" or (v == "EMPTY" and name == "base"):
-                out.append(_canon_nb(nbformat.v4.new_notebook()))
+                objs.append(nbformat.v4.new_notebook())
+                out.append(_canon_nb(objs[-1]))
                 continue
             try:
-                out.append(_canon_nb(nbformat.read(paths[name], as_version=4)))
+                objs.append(nbformat.read(paths[name], as_version=4))     # (kept as read: conversion of old formats
+                out.append(_canon_nb(objs[-1]))                          #  yields other Python types than a JSON round trip)
             except Exception as e:
+                objs.append(None)
                 out.append({"__unreadable__": type(e).__name__})
-        return out
-    expected_inputs = independent_inputs()
+        return out, objs
+    expected_inputs, expected_objs = independent_inputs()
 
     def classify(p):
         for name, q in paths.items():
@@ -337,13 +344,31 @@ def one_pass(sc, plan, line_total=None, count_lines=False, scratch=None):
         pp.Popen = saved_pp_popen
         fs.uninstall()
         app.merge_notebooks = orig_merge
+    independent = None
+    if not plan and not count_lines and not any(isinstance(x, dict) and "__unreadable__" in x for x in expected_inputs):
+        # what the library merge returns for these three notebooks and these strategy flags, computed by the harness
+        try:
+            import argparse
+            from nbdime.merging.notebooks import merge_notebooks as lib_merge
+            fl = list(sc["flags"])
+
+            def opt(name, default=None):
+                return fl[fl.index(name) + 1] if name in fl else default
+            ns = argparse.Namespace(merge_strategy=opt("--merge-strategy", "inline"), input_strategy=opt("--input-strategy"),
+                                    output_strategy=opt("--output-strategy"), ignore_transients="--no-ignore-transients" not in fl,
+                                    log_level="INFO")
+            ins = [copy.deepcopy(x) for x in expected_objs]
+            m, d = lib_merge(ins[0], ins[1], ins[2], ns)
+            independent = {"merged": _canon_nb(m), "conflict": any(x.conflict for x in d)}
+        except Exception as e:
+            independent = {"error": type(e).__name__}
     log.ev("exit", status=status, normal=normal_return, exc=exc_name)
     after = read_bytes(out_path) if out_path else None
     stdout_text = read_bytes(stdout_path)
     return {
         "status": status, "normal_return": normal_return, "exc": exc_name,
         "events": [list(e) for e in fs.events], "fired": [[list(k), f] for k, f in fs.fired], "fired_phase": fs.fired_phase,
-        "phase_end": fs.phase, "captured": captured, "expected_inputs": expected_inputs, "before": before, "after": after, "stdout": stdout_text,
+        "phase_end": fs.phase, "captured": captured, "expected_inputs": expected_inputs, "independent": independent, "before": before, "after": after, "stdout": stdout_text,
         "lines": counter["lines"], "digest": log.digest(), "n_events": log.n, "stderr": sink.getvalue()[-600:],
     }
 
@@ -399,13 +424,28 @@ def check_reference(sc, ref, violate):
         elif sc["out"] in ("file_absent", "file_existing") and not sc["decisions"] and ref["after"] is not None:
             violate("R", dict(sig, what="agreed_deletion_file_left"), "agreed deletion left the output file in place")
         return "agreed_deletion"
+    ind = ref.get("independent")
     if "merged" not in ref["captured"]:
+        if ind and "merged" in ind and ref["normal_return"] and st in (0, 1) and not sc["decisions"]:
+            # The command never went through nbmergeapp.merge_notebooks (refactored? a shortcut?).  Judge it against the
+            # library result computed by the harness instead of insisting on the seam.
+            fake = dict(ref, captured={"merged": ind["merged"], "inputs": ref.get("expected_inputs")})
+            ok, why = _output_matches(sc, fake)
+            if (st == 0) != (not ind["conflict"]):
+                violate("R", dict(sig, what="status_vs_conflicts"), "exit status %r but the library merge %s" % (st, "leaves conflicts" if ind["conflict"] else "is clean"))
+            elif not ok:
+                violate("R", dict(sig, what="output_not_library_result"), "the command bypassed merge_notebooks and " + why.replace("returned", "returns"))
+            return "merge_not_observed"
         # the run failed before or inside the merge on its own (e.g. an empty local file): must not be success
         if st == 0:
             violate("R", dict(sig, what="success_without_merge"), "exit status 0 although the library merge never returned")
         if ref["after"] != ref["before"]:
             violate("R", dict(sig, what="output_touched_without_merge"), "output changed although the library merge never returned")
         return "input_determined_failure"
+    if ind and "merged" in ind:
+        known0 = _collect_ids([v for v in sc["triple"].values() if isinstance(v, dict)])   # ids drawn while converting are masked
+        if _mask_ids(ind["merged"], known0) != _mask_ids(ref["captured"]["merged"], known0):
+            violate("R", dict(sig, what="library_result"), "the notebook the command merged differs from what the library merge returns for the same files and flags")
     # R2: what was merged is what the files hold (or the allowed placeholders) - never a silent substitute
     exp = ref.get("expected_inputs") or []
     for name, want, got in zip(("base", "local", "remote"), exp, ref["captured"].get("inputs") or []):
